@@ -181,22 +181,18 @@ IdealObs(d) ==
       defs |-> IF d.lbl THEN <<U(LName(d))>> ELSE <<>>]
 
 (* NAMED DEVIATIONS of the pinned code (known_findings.json, property X04) *)
-StartsBom(bs) == \/ Len(bs) >= 2 /\ (<<bs[1], bs[2]>> = <<255, 254>> \/ <<bs[1], bs[2]>> = <<254, 255>>)
-                 \/ Len(bs) >= 3 /\ Take(bs, 3) = <<239, 187, 191>>
 Dev(d, r) ==
   LET v  == IF d.lay = "b5" THEN 5 ELSE 8                  \* the stream an xls reader takes
       cp == IF d.lay = "dual" THEN 1200 ELSE d.cp
-      strs == {d.tn, d.tc, Sheet2Name(d)} \cup (IF d.lbl THEN {LName(d)} ELSE {}) \cup (IF d.fmt # <<>> THEN {d.fmt} ELSE {})
-  IN (IF v = 8 /\ cp \notin {0, 1200} THEN {"Biff8CodePage"} ELSE {})
-     \cup (IF cp \notin Known \cup {0} THEN {"UnsupportedCodePage"} ELSE {})
+  IN (IF cp \notin Known \cup {0} THEN {"UnsupportedCodePage"} ELSE {})
      \cup (IF v = 5 /\ cp \in DbPages THEN {"DbcsByteString"} ELSE {})
      \* (the format text itself is not observable, its class is: named when the class comes out wrong)
      \cup (IF v = 5 /\ d.fmt # <<>> /\ r.scans # <<>> /\ r.scans[1][2] # Detect(U(d.fmt)) THEN {"Biff5Format"} ELSE {})
      \cup (IF v = 5 /\ d.lbl THEN {"Biff5Lbl"} ELSE {})
      \cup (IF v = 5 /\ Len(Bytes5(d.tc)) < 2 THEN {"ShortString"} ELSE {})
-     \cup (IF \/ v = 5 /\ cp \in SbPages /\ \E t \in strs : StartsBom(Bytes5(t))
-              \/ v = 8 /\ \E t \in strs : IsWide(t, d.wide) /\ StartsBom(Chars8(t, d.wide))
-           THEN {"BomSniff"} ELSE {})
+     \* (repaired by /repo 4e8471f, no longer deviations: Biff8CodePage -- v = 8 /\ cp \notin {0, 1200} --
+     \*  and BomSniff -- a string whose bytes start with FF FE / FE FF / EF BB BF; MC_Biff5_aswas.cfg keeps the
+     \*  reader as it was and has to violate Refines)
 
 Why(name) == PrintT(<<"WHY", name, doc>>) /\ FALSE
 
